@@ -1048,20 +1048,27 @@ namespace chaiscript {
 
       void save_function_params(const Function_Params &t_params) { save_function_params(*m_stack_holder, t_params); }
 
-      void new_function_call(Stack_Holder &t_s, Type_Conversions::Conversion_Saves &t_saves) {
+      /// \returns the number of converted values that were pending when the call started; hand it to pop_function_call
+      std::size_t new_function_call(Stack_Holder &t_s, Type_Conversions::Conversion_Saves &t_saves) {
         if (t_s.call_depth == 0) {
           m_conversions.enable_conversion_saves(t_saves, true);
         }
 
         ++t_s.call_depth;
 
-        save_function_params(m_conversions.take_saves(t_saves));
+        // Values converted for an enclosing call that is still running are left alone: they have to outlive
+        // that call, not just the scope this nested call happens to be made from
+        return t_saves.saves.size();
       }
 
-      void pop_function_call(Stack_Holder &t_s, Type_Conversions::Conversion_Saves &t_saves) {
+      void pop_function_call(Stack_Holder &t_s, Type_Conversions::Conversion_Saves &t_saves, const std::size_t t_pending_before = 0) {
         --t_s.call_depth;
 
         assert(t_s.call_depth >= 0);
+
+        // What was converted for the call that just finished is kept until the enclosing scope is done,
+        // like its other parameters (it may have returned a reference to it)
+        save_function_params(t_s, m_conversions.take_saves(t_saves, t_pending_before));
 
         if (t_s.call_depth == 0) {
           t_s.call_params.back().clear();
@@ -1069,9 +1076,11 @@ namespace chaiscript {
         }
       }
 
-      void new_function_call() { new_function_call(*m_stack_holder, m_conversions.conversion_saves()); }
+      std::size_t new_function_call() { return new_function_call(*m_stack_holder, m_conversions.conversion_saves()); }
 
-      void pop_function_call() { pop_function_call(*m_stack_holder, m_conversions.conversion_saves()); }
+      void pop_function_call(const std::size_t t_pending_before = 0) {
+        pop_function_call(*m_stack_holder, m_conversions.conversion_saves(), t_pending_before);
+      }
 
       Stack_Holder &get_stack_holder() noexcept { return *m_stack_holder; }
 
